@@ -629,8 +629,9 @@ pub fn def(tier: Tier) -> PropertyDef {
         subs: vec![sub("convert_options", tier.pick(700, 20_000), case, check)
             .rates(&[("ge2_files", 0.4), ("eac", 0.25), ("filter_file_dlf", 0.15), ("filter_file_convert_format", 0.1), ("permuted_arguments", 0.2), ("equal_first_reception_time_same_ecus", 0.01)])
             .shrink_iters(150)
+            .slow()
             .boxed(),
-            sub("cross_group_ties", tier.pick(250, 6_000), tie_case(), check).rates(&[("cross_group_tie", 0.8), ("permuted_arguments", 0.8)]).shrink_iters(100).boxed(),
+            sub("cross_group_ties", tier.pick(250, 6_000), tie_case(), check).rates(&[("cross_group_tie", 0.8), ("permuted_arguments", 0.8)]).shrink_iters(100).slow().boxed(),
         ],
         workers: 16,
     }
